@@ -180,7 +180,14 @@ func init() {
 		if n < 0 {
 			n = 0
 		}
-		buf := filled(n)
+		// the too-short destination is a window of a larger region (spare capacity behind it): the region beyond the
+		// window belongs to the caller just as much as the window does
+		region := filled(size + 64)
+		buf := region[:n]
+		if hasTok(a[2:], "exact") {
+			buf = filled(n)
+			region = buf
+		}
 		if hasTok(a[2:], "nil") && n == 0 {
 			buf = nil
 		}
@@ -193,7 +200,7 @@ func init() {
 			st = fmt.Sprintf("err:n=%d", w)
 		}
 		t := "untouched"
-		if !allSentinel(buf) {
+		if !allSentinel(buf) || !allSentinel(region) {
 			t = "modified"
 		}
 		return st + " " + t
